@@ -289,7 +289,7 @@ func check(r *mc.Run, family string, files eng.Files, s *streams.Stream, url str
 		r.NonTrivial(sig)
 	}
 	r.Outcome(fmt.Sprintf("%s req=%d res=%d early=%v", family, len(gotReq), len(gotRes), early >= 0))
-	if txnN%997 == 0 {
+	if txnN%997 == 1 {
 		r.Sample(map[string]any{"family": family, "request_graph": req.String(), "response_graph": res.String(), "plan": fmt.Sprint(plan), "events": fmt.Sprint(evs)})
 	}
 	fail := func(clause, what string, want, got []string) {
@@ -514,6 +514,9 @@ func checkC(r *mc.Run, files eng.Files, s *streams.Stream, url string, plan map[
 	}
 	r.Outcome(fmt.Sprintf("C req=%v res=%v sysreq=%d sysres=%d early=%v", reqFlows, resFlows, len(sysReq), len(sysRes), earlyAt >= 0))
 	r.NonTrivial(fmt.Sprintf("C|%v|%d|%v", names(fl), qi, plan))
+	if txnN%41 == 0 {
+		r.Sample(map[string]any{"family": "C", "flows": fmt.Sprint(names(fl)), "quota_set": qi, "plan": fmt.Sprint(plan), "events": fmt.Sprint(probeStrings(evs))})
+	}
 	if (earlyAt >= 0) != v.Early {
 		fail("EARLY-VERDICT:family-C", fmt.Sprintf("early=%v but verdict %s", earlyAt >= 0, v))
 		return
